@@ -43,3 +43,25 @@ def cut(n, rng, ncuts=1, keep_root=True):
             break
         rng.choice(cands)[1] = None
     return t
+
+
+def cut_same_label(n, rng, k=2):
+    """open prefix with >= 2 open leaves of the SAME nonterminal (when the tree has such a label); else like cut()"""
+    import copy
+    t = copy.deepcopy(n)
+    by = {}
+    stack = [(t, 0)]
+    while stack:
+        x, d = stack.pop()
+        if x[0].startswith("<") and x[1]:
+            if d > 0:
+                by.setdefault(x[0], []).append(x)
+            for c in x[1]:
+                stack.append((c, d + 1))
+    cands = [v for v in by.values() if len(v) >= 2]
+    if not cands:
+        return cut(n, rng, ncuts=k)
+    nodes_ = rng.choice(cands)
+    for x in rng.sample(nodes_, min(len(nodes_), rng.choice([2, 2, 3]))):
+        x[1] = None
+    return t
